@@ -42,6 +42,12 @@ impl FrameBody {
         FrameBody { steps: steps.into(), exact: (with_size_hint && !has_err).then_some(total), polls: Arc::new(Mutex::new(0)) }
     }
 
+    /// like an HTTP/1 server's request body: the remaining length it announces is the *declared* Content-Length
+    /// minus what was read so far, whatever the peer then really sends
+    pub fn declared(steps: Vec<Step>, declared: u64) -> Self {
+        FrameBody { steps: steps.into(), exact: Some(declared), polls: Arc::new(Mutex::new(0)) }
+    }
+
     pub fn single(data: impl Into<Bytes>) -> Self {
         Self::new(vec![Step::Data(data.into())], true)
     }
@@ -70,7 +76,7 @@ impl http_body::Body for FrameBody {
             }
             Some(Step::Data(b)) => {
                 if let Some(e) = &mut self.exact {
-                    *e -= b.len() as u64;
+                    *e = e.saturating_sub(b.len() as u64);
                 }
                 Poll::Ready(Some(Ok(Frame::data(b))))
             }
@@ -116,6 +122,9 @@ pub struct WireResp {
     pub frames: Vec<Vec<u8>>,
     pub trailers: Option<http::HeaderMap>,
     pub body_error: Option<String>,
+    /// the body's own announcements (`http_body::Body::size_hint`, `is_end_stream`) contradicted what it then
+    /// yielded: a server frames the response by them (Content-Length, early end), so a client would decode other bytes
+    pub framing: Option<String>,
 }
 
 impl WireResp {
@@ -130,11 +139,26 @@ impl WireResp {
 pub async fn drain_response(resp: http::Response<s3s::Body>) -> WireResp {
     let (parts, mut body) = resp.into_parts();
     let mut out = WireResp { status: parts.status.as_u16(), headers: parts.headers, ..Default::default() };
+    let mut total: u64 = 0;
+    // (bytes yielded before the announcement, announced lower bound, announced upper bound)
+    let mut hints: Vec<(u64, u64, Option<u64>)> = Vec::new();
+    let mut ended_at: Option<u64> = None;
     loop {
+        {
+            use http_body::Body as _;
+            let h = body.size_hint();
+            hints.push((total, h.lower(), h.upper()));
+            if body.is_end_stream() && ended_at.is_none() {
+                ended_at = Some(total);
+            }
+        }
         match body.frame().await {
             None => break,
             Some(Ok(f)) => match f.into_data() {
-                Ok(d) => out.frames.push(d.to_vec()),
+                Ok(d) => {
+                    total += d.len() as u64;
+                    out.frames.push(d.to_vec())
+                }
                 Err(f) => {
                     if let Ok(t) = f.into_trailers() {
                         out.trailers = Some(t);
@@ -144,6 +168,20 @@ pub async fn drain_response(resp: http::Response<s3s::Body>) -> WireResp {
             Some(Err(e)) => {
                 out.body_error = Some(e.to_string());
                 break;
+            }
+        }
+    }
+    if out.body_error.is_none() {
+        for (at, lower, upper) in hints {
+            let rest = total - at;
+            if rest < lower || upper.is_some_and(|u| rest > u) {
+                out.framing = Some(format!("after {at} bytes the body announced between {lower} and {upper:?} remaining bytes, it then yielded {rest}"));
+                break;
+            }
+        }
+        if let Some(at) = ended_at {
+            if total > at && out.framing.is_none() {
+                out.framing = Some(format!("the body said it had ended after {at} bytes and then yielded {} more", total - at));
             }
         }
     }
